@@ -13,6 +13,8 @@
     the key is deleted and the result handed to everybody who joined in one atomic step).
   * The background updater (`updateTS`) is an actor too: one tick = `startUpd`, the Range over the map, then the
     same getTimestamp + setLastTS steps as a foreground call (it publishes through `setLastTS`).
+  * Cancellation of a caller's context is an action of the environment (`cancel`); a call blocked at PD or on a
+    flight may then return the context error (`abort`).  The flight a cancelled call started is untouched.
   * Ghost fields (`startClk`, `startPd`, `doneClk`, `clock`) record real time; they never influence a step.
 -/
 import ClientGoVerif.Model.Bytes
@@ -70,6 +72,9 @@ inductive PC
   -- background updater (`updateTS` → `doUpdate`): one tick
   | uRange     -- about to `lastTSMap.Range`: with an entry it does getTimestamp + setLastTS, i.e. continues at gCall
   | uFin       -- the map had no entry: nothing to update
+  -- the caller's context was cancelled while it waited
+  | gCancelled -- GetTimestamp returned ctx.Err() (PD request pending; a timestamp PD may have assigned is dropped)
+  | vCancelled -- ValidateReadTS returned "fail to validate …: context canceled" (it was waiting for a flight)
   -- ValidateReadTS
   | vCheck     -- top of the loop: about to read the cached ts
   | vJoin      -- cached ts too old: about to `DoChan` (join or start)
@@ -89,6 +94,8 @@ structure Thread where
   cur : Nat := 0           -- result received from the flight
   fid : Nat := 0           -- flight joined
   isFlight : Bool := false
+  isUpd : Bool := false    -- a tick of the background updater (context.TODO(): cannot be cancelled)
+  cancelled : Bool := false -- the context the caller passed has been cancelled
   startClk : Nat := 0      -- ghost: clock when the call started
   startPd : Nat := 0       -- ghost: largest timestamp PD had issued when the call started
   doneClk : Nat := 0       -- ghost: clock when GetTimestamp returned
@@ -109,7 +116,9 @@ inductive Act
   | pdIssue (i : Nat) (inc : Nat)   -- PD assigns `pdLast + inc + 1` to the request of thread i
   | run (i : Nat) (fresh : Nat)     -- thread i performs its next step (`fresh`: id for a flight it may start)
   | startUpd (i : Nat)              -- the background updater starts a tick (`doUpdate`) as thread i
-  deriving Repr
+  | cancel (i : Nat)                -- the environment cancels the context of client call i (at any moment)
+  | abort (i : Nat)                 -- call i, blocked at PD or on a flight, observes `<-ctx.Done()` and returns the ctx error
+  deriving Repr, DecidableEq
 
 def St.set (s : St) (i : Nat) (t : Thread) : St :=
   { s with thr := fun j => if j = i then t else s.thr j }
@@ -194,7 +203,19 @@ def step' (s : St) : Act → St
     else s
   | .run i fresh => runThread s i fresh (s.thr i)
   | .startUpd i =>
-    if (s.thr i).pc = .idle then s.set i { pc := .uRange, startClk := s.clock, startPd := s.pdLast } else s
+    if (s.thr i).pc = .idle then s.set i { pc := .uRange, isUpd := true, startClk := s.clock, startPd := s.pdLast } else s
+  | .cancel i => s.set i { s.thr i with cancelled := true }
+  | .abort i =>
+    -- flights run under context.Background(), the updater under context.TODO(): only client calls can be aborted.
+    -- A flight started by a call that is aborted keeps running for those who joined it.
+    let t := s.thr i
+    if t.cancelled = true ∧ t.isFlight = false ∧ t.isUpd = false then
+      match t.pc with
+      | .gWait => s.set i { t with pc := .gCancelled }
+      | .gIssued => s.set i { t with pc := .gCancelled }
+      | .vWait => s.set i { t with pc := .vCancelled }
+      | _ => s
+    else s
 
 /-- one action; the ghost clock counts actions -/
 def step (s : St) (a : Act) : St :=
